@@ -181,6 +181,39 @@ pub fn check(sc: &Scenario, env: &mut Env) -> Result<Outcome, HarnessError> {
         }
         expected.sort();
         let mut actual = view.yielded_sorted();
+        // The base itself: C02 says it is yielded "only if" the glob matches the empty path and
+        // leaves the converse open (`*` matches the empty path and the base is not yielded), so the
+        // model cannot say whether it is due. A depth behaviour, however, only *bounds* the walk:
+        // if depth 0 is inside the window, the base is yielded exactly if the same walk without
+        // bounds yields it (second execution of the real code, bounds removed).
+        if base_may && w.depth != Depth::Unbounded {
+            let mut usc = sc.clone();
+            usc.walkers[wi].depth = Depth::Unbounded;
+            usc.walkers[wi].form = 0;
+            let ulog = env.run(&usc)?;
+            let uview = View::of(&ulog, wi, &sc.cwd);
+            let unbounded = uview.ys.iter().any(|y| y.wp.as_deref() == Some(space.start.as_str()));
+            let bounded = actual.iter().any(|p| *p == space.start);
+            if uview.panic.is_none() && unbounded != bounded {
+                out.violate(
+                    "C15",
+                    "depth",
+                    wi,
+                    format!(
+                        "{:?} base {:?} {:?} (window {}..={:?}): depth 0 is inside the window, yet the base is {} although the same walk without bounds {}",
+                        w.source,
+                        w.base,
+                        w.depth,
+                        min,
+                        max,
+                        if bounded { "yielded" } else { "not yielded" },
+                        if unbounded { "yields it" } else { "does not yield it" }
+                    ),
+                    vec![format!("{}:{}", if bounded { "extra" } else { "missing" }, space.start)],
+                );
+            }
+            out.probe("depth:base-inside-window-compared-with-unbounded-walk");
+        }
         if base_may {
             if let Some(i) = actual.iter().position(|p| *p == space.start) {
                 actual.remove(i);
